@@ -1278,7 +1278,9 @@ func c17Round4(c *core.Ctx) {
 				c.Decide(okN, "R17.11", fmt.Sprintf("parameter-narrowing-bounded:%s:%s", core.FuncName(fn), to.Name()), c.Pos(in), "the 64-bit parameter reaches the table / face call only bounded by what "+to.Name()+" can hold (bound made on the unsigned value)", core.FuncName(fn)+" converts a 64-bit command parameter to "+to.Name()+" and hands it on without an upper bound on the unsigned value that "+to.Name()+" can hold: the command is answered 200 with the requested value echoed, but the forwarder acts on the value modulo the target type (Capacity 65536 becomes 0) or on a negative one")
 			})
 		}
-		c.Floor("R17.11", "narrowing conversions of a command parameter that reach a table or face call", nNarrow, 2)
+		// (the MTU conversions may live in a shared helper, where R17.3 decides them through
+		// the taint engine's helper summaries: the floor counts what must remain — Capacity)
+		c.Floor("R17.11", "narrowing conversions of a command parameter that reach a table or face call", nNarrow, 1)
 	}
 
 	// ---- R17.12 the handlers agree on "FaceId 0 means the requesting face": every handler that
